@@ -1,27 +1,12 @@
-(** C14 — statements not proved yet (no proof attempts are left here; nothing below is used by
-    Properties.v).
+(** C14 — statements not proved yet: none.
 
-    [prune_safe_without_recurrence]: the chain-level sufficient condition for PruneState to be
-    harmless that complements C14_prune_safe_partial: if the range starts at the bottom
-    (from <= 1, so that the only kept height below the range is the genesis state) and no
-    validator-set key used as LastValidators at a pruned height is used again by a state above
-    [to], then every kept height of the chain loads as before.  It follows from
-    C14_prune_safe_partial + C14_prune_doomed once the invariant "the record of height h names
-    the keys of state h" (Proofs.saved_ok) is carried through [prune]; the missing part is the
-    bookkeeping that relates [In sh (states g xs)] to the height ranges. *)
-From Coq Require Import List ZArith NArith Bool.
-From Kardia Require Import C14.Model C14.Proofs C14.ProofsPrune.
-Import ListNotations.
-Local Open Scope N_scope.
+    Proved in round 4 and moved to Properties.v: [prune_safe_without_recurrence]
+    (C14_prune_safe_without_recurrence; for every range C14_prune_safe_chain), the exact
+    characterisation of what PruneState deletes (C14_prune_doomed_iff, C14_prune_doomed_deleted)
+    and the exact characterisation of what Load returns after a chain was saved
+    (C14_roundtrip_characterised, which settles the three sets one by one).
 
-Definition prune_safe_without_recurrence (H : list (N * Z) -> N) (PK : N -> N -> N) : Prop :=
-  forall g gb xs d from to d' a b, genesis_ok g gb -> chain_wf g xs ->
-    boot_chain H PK g gb xs = Some (d, final_state g xs) ->
-    prune d from to = (d', a, b) -> from <= 1 ->
-    (forall sp sh X, In sp (states g xs) -> In sh (states g xs) ->
-        1 <= last_height sp < to -> to < last_height sh -> last_vals sp = Some X ->
-        valset_key H X <> okey H (last_vals sh) /\ valset_key H X <> valset_key H (vals sh) /\
-        valset_key H X <> valset_key H (next_vals sh)) ->
-    forall sh, In sh (states g xs) -> kept from to (last_height sh) ->
-      load_at d' (last_height sh) = load_at d (last_height sh) /\
-      load_validators d' (last_height sh) = load_validators d (last_height sh).
+    The two statements of the property text that do not hold — the full round trip and the full
+    prune safety — stay refuted in Properties.v (C14_roundtrip_refuted, C14_prune_safe_refuted:
+    known findings), now with their exact frames next to them. *)
+From Kardia Require Import C14.Model.
